@@ -8,10 +8,10 @@ pub fn prop() -> Prop {
     Prop {
         id: "C06",
         level: "model_checking",
-        rule: "clean streams of <=2 (thorough <=3) values over a 6-value core x 5 separator kinds (space, LF, tab, CRLF, touching) with k=0,1 (thorough 2) whitespace-delimited noise tokens (all 1- and 2-byte tokens over the 16 bytes } ] , : . e E + x * 0x80 0xff NUL and the UTF-8 lead bytes 0xc3 0xe2 0xf0 - so tokens ending in a truncated multi-byte character and complete 2-byte characters occur) in every gap (before/between/after) x 4 policies x 9 pipelines (none, select, sort, unique, group, take, only-objects-and-arrays, split+filter, csv output); 3-value streams with 1-byte tokens; streams of 10..300 values with a noise token in EVERY gap, all on one line or one per line; non-trivial = k>=1 and a value follows the noise; distinct by construction",
+        rule: "clean streams of <=2 (thorough <=3) values over a 6-value core x 5 separator kinds (space, LF, tab, CRLF, touching) with k=0,1 (thorough 2) whitespace-delimited noise tokens (all 1- and 2-byte tokens over the 16 bytes } ] , : . e E + x * 0x80 0xff NUL and the UTF-8 lead bytes 0xc3 0xe2 0xf0 - so tokens ending in a truncated multi-byte character and complete 2-byte characters occur) in every gap (before/between/after) x 4 policies x 9 pipelines (none, select, sort, unique, group, take, only-objects-and-arrays, split+filter, csv output); 3-value streams with 1-byte tokens; streams of 10..300 values with a noise token in EVERY gap, all on one line or one per line; non-trivial = k>=1 and a value follows the noise; distinct by construction; every eighth single-noise case is also given as a file (same rows, same kind of result)",
         explanation: "differential against the run on the clean stream (and on the clean prefix for the panic policy), clause by clause as the property states; the reached-gap rule for --take follows the step-wise reference pipeline",
         assumptions: COMMON_ASSUMPTIONS.to_vec(),
-        guards: vec!["many-noisy-regions-on-one-line", "noise-before-value", "panic-policy-prefix", "clean-crlf", "non-utf8-noise", "error-line-on-stdout", "error-line-on-stderr"],
+        guards: vec!["noisy-stream-from-a-file", "many-noisy-regions-on-one-line", "noise-before-value", "panic-policy-prefix", "clean-crlf", "non-utf8-noise", "error-line-on-stdout", "error-line-on-stderr"],
         budget_s: (100, 2400),
         single_worker: false,
         run,
@@ -267,9 +267,20 @@ fn explore_stream(ctx: &mut Ctx, idx: &[usize], toks: &[Vec<u8>], kmax: usize) {
                 for g in 0..=n {
                     for t in toks {
                         let input = build(&vals, sk, &[(g, t.clone())]);
-                        let case = Case::owned(args.clone(), input);
+                        let case = Case::owned(args.clone(), input.clone());
                         let got = ctx.run(&case);
                         ctx.case_done();
+                        // the same bytes given as a FILE: the same rows and the same kind of result (diagnostics name the file)
+                        if (g + sk + t.len() + n) % 8 == 0 {
+                            let fcase = Case { args: args.clone(), input: crate::drive::Input::Files(vec![("noisy.json".to_string(), input.clone())]), rplan: Default::default(), wplan: Default::default() };
+                            let fgot = ctx.run(&fcase);
+                            ctx.guard("noisy-stream-from-a-file");
+                            let rows_only = |b: &[u8]| -> Vec<u8> { b.split(|c| *c == b'\n').filter(|l| !l.starts_with(b"error:")).flat_map(|l| l.iter().copied().chain(std::iter::once(b'\n'))).collect() };
+                            if fgot.res.is_ok() != got.res.is_ok() || fgot.res.is_panic() || rows_only(&fgot.stdout) != rows_only(&got.stdout) {
+                                let tok: String = t.iter().map(|b| format!("{b:02x}")).collect();
+                                ctx.violation("rows-differ-between-stdin-and-file", &format!("pipeline {} policy {policy} noise 0x{tok}", pipe.name), &[fcase.clone(), case.clone()], got.brief(), fgot.brief());
+                            }
+                        }
                         ctx.trace_validated();
                         ctx.transition(&(pipe.name, policy, n, g, t.len()));
                         if g < n {
